@@ -417,7 +417,9 @@ sys.exit(1 if d else 0)
 
 def serial_monitor(pr):
     from . import native
-    names = ['3SGB-subset', '1HPX'] if pr.tier == 'quick' else ['3SGB-subset', '1HPX', '4DFR', '3SGB', '1FTJ-Chain-A']
+    # multi-conformation inputs too: atoms copied between conformations (top-up) carry their serial along
+    names = ['3SGB-subset', '1HPX', 'conf-alt-AB', 'conf-model-missing-atoms'] if pr.tier == 'quick' else \
+        ['3SGB-subset', '1HPX', '4DFR', '3SGB', '1FTJ-Chain-A', 'conf-alt-AB', 'conf-alt-BC', 'conf-model-missing-atoms', 'conf-alt-AB-mutant']
     kinds = ['reversed', 'zero', 'wide'] if pr.tier == 'quick' else ['reversed', 'shuffled', 'zero', 'wide', 'hy36-desc']
     ev, viol = 0, []
     for name in names:
